@@ -970,6 +970,8 @@ class SymArray:
         return self._view(self.shape[::-1], self.offset, self.strides[::-1])
 
     def _norm(self, idx, dim):
+        global ACCESSES
+        ACCESSES += 1
         n = self.shape[dim]
         if isinstance(idx, SymBool):
             idx = idx._i()
@@ -1193,6 +1195,7 @@ class SymArray:
 
 
 _OOB = object()
+ACCESSES = 0            # number of index normalisations performed (evidence: how many accesses were checked)
 WRAP_REPORT = False
 WRAP_SITES: list = []
 
